@@ -1106,6 +1106,9 @@ impl<T: Send> Drop for AsyncReceiver<T> {
         guard
           .waiting_async_receivers
           .retain(|w| w.state != state_ptr);
+      } else if self.state.load(Ordering::SeqCst) == STATE_SUCCESS_SPACE {
+        // A stream that was woken for a buffered item but is dropped before taking it passes the wake on.
+        self.shared.forward_recv_wake();
       }
     }
   }
